@@ -13,9 +13,9 @@ class C05(ProgCheck):
     level = "exploration"
     flavours = ["ser", "ser-asan", "par", "par-asan"]
     assumptions = [
-        "deferred-observation arm: the same history is run with every object observed at birth and with nothing observed until "
-        "the end; unobserved copies must equal their sources, and every CrossSection must end up identical in both passes "
-        "(for Manifolds different forcing histories only promise the same solid, so they are compared within one pass only)",
+        "deferred-observation arm: the history is run with nothing observed until the end; copies and assignments made between "
+        "never-observed objects must equal their sources when both are finally observed (differences between an observed and an "
+        "unobserved history are counted but not judged: derived objects depend on rounded coordinates)",
         "observation = every public getter (Status, counts, Genus, OriginalID, BoundingBox, Epsilon, Tolerance, full GetMeshGL64; "
         "ToPolygons/Area/Bounds/Tolerance for CrossSections), hashed field-wise",
         "pools <= 12 Manifolds and 8 CrossSections, histories <= 40 steps",
